@@ -270,7 +270,45 @@ fn handle_on_connection(
         | TcpState::FinWait2
         | TcpState::CloseWait
         | TcpState::Closing
-        | TcpState::LastAck => handle_established(k, fd, local, remote, s),
+        | TcpState::LastAck => {
+            if s.flags.syn {
+                // A retransmitted SYN-ACK: the peer never saw our handshake
+                // ACK. Nothing in the segment is new, but it must be
+                // answered, or the peer's half-open child runs out of
+                // SYN-ACK retransmits and is reaped while this side sits
+                // in Established forever.
+                if s.flags.ack {
+                    let recv_cap = k.recv_buf_cap;
+                    let (snd_nxt, rcv_nxt, window) = {
+                        let tcb = k.lookup(fd).unwrap().tcb.as_ref().unwrap();
+                        (
+                            tcb.snd_nxt,
+                            tcb.rcv_nxt,
+                            advertised_window(recv_cap, tcb.recv_buf.len()),
+                        )
+                    };
+                    emit(
+                        k,
+                        local,
+                        remote,
+                        TcpSegment {
+                            src_port: local.port(),
+                            dst_port: remote.port(),
+                            seq: snd_nxt,
+                            ack: rcv_nxt,
+                            flags: TcpFlags {
+                                ack: true,
+                                ..TcpFlags::default()
+                            },
+                            window,
+                            payload: Bytes::new(),
+                        },
+                    );
+                }
+                return;
+            }
+            handle_established(k, fd, local, remote, s)
+        }
         TcpState::Closed => {
             // Socket is torn down but the TCB lingers until the shim
             // drops its Fd. Ignore any late inbound traffic.
